@@ -306,7 +306,7 @@ pub fn gen_case(r: &mut Runner, prop: &str, ind: &str, maxp: usize, maxlen: usiz
     let np = crate::ind::arity(ind).unwrap().0;
     let ps: Vec<usize> = (0..np).map(|_| gen::period(&mut r.rng, maxp)).collect();
     let len = r.rng.range(1, maxlen);
-    let scale = *r.rng.pick(&[1e-17, 1e-9, 1e-2, 1.0, 100.0, 1e4, 1e6]);
+    let scale = *r.rng.pick(&[1e-17, 1e-9, 1e-2, 1.0, 100.0, 1e4, 1e6, 8.900295434028806e-308, 1e-310]);
     let bars_only = !crate::ind::has_next_name(ind);
     let use_bars = bars_only || ((ind == "FastStochastic" || ind == "SlowStochastic") && r.rng.chance(0.5));
     let mut c = Case::new(prop, if use_bars { "bars" } else { "scalars" }, ind, &ps, &[]);
@@ -353,6 +353,36 @@ pub fn generate(r: &mut Runner) {
             }
         }
     }
+    // tie stage (bar-only indicators): DIFFERENT bars with the SAME typical price 7/3 (sum of prices not a
+    // multiple of 3, so a reformulated typical price rounds differently), mixed with bars at 2 and 3
+    let tie_alpha: Vec<B> = vec![
+        B { o: 2.0, h: 3.0, l: 2.0, c: 2.0, v: 10.0 },
+        B { o: 2.0, h: 4.0, l: 1.0, c: 2.0, v: 7.0 },
+        B { o: 2.0, h: 3.0, l: 1.0, c: 2.0, v: 5.0 },
+        B { o: 3.0, h: 4.0, l: 2.0, c: 3.0, v: 3.0 },
+    ];
+    for ind in INDS {
+        if crate::ind::has_next_name(ind) {
+            continue;
+        }
+        let np = crate::ind::arity(ind).unwrap().0;
+        let psets: Vec<Vec<usize>> = match np {
+            0 => vec![vec![]],
+            1 => (1..=4).map(|p| vec![p]).collect(),
+            _ => continue,
+        };
+        for ps in psets {
+            for code in 0..tie_alpha.len().pow(depth as u32) {
+                let mut c = Case::new("C03", "exhaustive-tp-ties", ind, &ps, &[]);
+                let mut k = code;
+                for _ in 0..depth {
+                    c.ops.push(Op::Bar(tie_alpha[k % tie_alpha.len()]));
+                    k /= tie_alpha.len();
+                }
+                r.run(c, true);
+            }
+        }
+    }
     let cases = if r.tier == Tier::Quick { 450 } else { 18000 };
     r.log_every = if r.tier == Tier::Quick { 5 } else { 151 };
     let maxlen = if r.tier == Tier::Quick { 400 } else { 3000 };
@@ -370,4 +400,4 @@ pub fn generate(r: &mut Runner) {
     }
 }
 
-pub const RULE: &str = "small scope: all sequences of the stated depth over 4 positive prices with equal neighbours (scalar indicators) or over 4 bars incl. a zero-volume bar, a one-price bar and bars with close != (high+low)/2 (bar-only indicators), periods 1..=5; sampled: periods to 512, positive price streams in 9 regimes, valid bars with independent open/high/low/close and volumes incl. 0. Each output is compared with the documented formula evaluated from scratch in double-double on the whole history, tolerance tau(t)·c·scale, judged only when c <= 1e6 and the reference denominator is non-zero (MFI additionally skips n steps after a typical-price comparison whose exact and f64 signs differ). Non-trivial = longer than the largest period + 1 (steady state reached).";
+pub const RULE: &str = "small scope: all sequences of the stated depth over 4 positive prices with equal neighbours (scalar indicators) or over 4 bars incl. a zero-volume bar, a one-price bar and bars with close != (high+low)/2 (bar-only indicators), periods 1..=5; tie stage: all sequences over 4 bars of which two DIFFERENT ones have the same typical price 7/3 (bar-only indicators, periods 1..=4); sampled: periods to 512, positive price streams in 9 regimes, valid bars with independent open/high/low/close and volumes incl. 0. Each output is compared with the documented formula evaluated from scratch in double-double on the whole history, tolerance tau(t)·c·scale, judged only when c <= 1e6 and the reference denominator is non-zero (MFI additionally skips n steps after a typical-price comparison whose exact and f64 signs differ). Non-trivial = longer than the largest period + 1 (steady state reached).";
